@@ -244,8 +244,6 @@ def check_type(scope, mods, t, dims, got, path, viol, feats):
         wb = [str(t[2] if t[2] is not None else U32MAX)]
         if got[4] != wb:
             bad(f"sequence bound {wb} declared, published {got[4]}", "bound-dropped" if t[2] is not None and got[4] == [str(U32MAX)] else None)
-        if t[1] == ("base", "int8") and got[5][0] == "UINT8":
-            return bad("sequence<int8> publishes element kind UINT8", "vec-i8-element-described-as-uint8")
         return check_type(scope, mods, t[1], [], got[5], path + "<>", viol, feats)
     if k == "name":
         p = idl_resolve(scope, mods, t)
@@ -269,13 +267,11 @@ def check_decl(scope, mods, d, got, path, viol, feats):
         return bad(f"declared {d[0]}, published kind {got[0]}")
     qn = '"' + "::".join(mods + [d[1]]) + '"'
     if got[1] != qn:
-        multi = d[0] == "struct" and mods and any(a in ("final", "appendable", "mutable") for a in d[2])
-        bad(f"type name {got[1]}, declared {qn}", "only-first-dust-dds-attribute-read" if multi and got[1] == '"' + d[1] + '"' else None)
+        bad(f"type name {got[1]}, declared {qn}")
     if d[0] == "struct":
         ext = struct_ext(d)
         if got[2] != ext[0].upper():
-            spelled = any(a[0] == "o" and a[1].startswith("extensibility:") for a in d[2] if not isinstance(a, str))
-            bad(f"extensibility {got[2]}, declared {ext}", "extensibility-annotation-ignored" if spelled else None)
+            bad(f"extensibility {got[2]}, declared {ext}")
         fm = flat_members(d)
         gm = got[7]
         if len(gm) != len(fm):
@@ -288,30 +284,17 @@ def check_decl(scope, mods, d, got, path, viol, feats):
             ids.append(x)
             nxt = x + 1
         any_id = any(not isinstance(a, str) and a[0] == "id" for anns, _, _, _ in fm for a in anns)
-        first_of = {}
-        for anns, t, decls in d[3]:
-            for i, (n, _) in enumerate(decls):
-                first_of[n] = (i == 0)
         for j, ((anns, t, n, dims), g) in enumerate(zip(fm, gm)):
             p2 = f"{path}.{n}"
-            nreal = sum(1 for a in anns if a in ("key", "optional") or (not isinstance(a, str) and a[0] == "id"))
-            lost_cause = None
-            if not first_of[n] and nreal >= 1:
-                lost_cause = "annotation-on-first-declarator-only"
-            elif nreal >= 2:
-                lost_cause = "only-first-dust-dds-attribute-read"
             if g[1] != f'"{n}"':
                 bad(f"member {j} is named {g[1]}, declared {n}")
             for flag, idx, name in (("key" in anns, 4, "key"), ("optional" in anns, 5, "optional"), ("key" in anns, 6, "must-understand")):
                 if g[idx] != G.b01(flag):
-                    viol.append({"what": f"{p2}: {name} flag {g[idx]}, declared {G.b01(flag)}", **({"cause": lost_cause} if lost_cause else {})})
+                    viol.append({"what": f"{p2}: {name} flag {g[idx]}, declared {G.b01(flag)}"})
             if g[2] != str(ids[j]):
                 c = None
                 if ext != "mutable" and any_id and [m[2] for m in gm] == [str(i) for i in range(len(gm))]:
                     c = "explicit-id-ignored-unless-mutable"
-                elif lost_cause or any(first_of.get(n2) is False or sum(1 for a in an2 if a in ("key", "optional") or (not isinstance(a, str) and a[0] == "id")) >= 2
-                                       for an2, _, n2, _ in fm[:j + 1] if any(not isinstance(a, str) and a[0] == "id" for a in an2)):
-                    c = "only-first-dust-dds-attribute-read" if not (not first_of[n] and nreal >= 1) else "annotation-on-first-declarator-only"
                 viol.append({"what": f"{p2}: member id {g[2]}, declared {ids[j]}", **({"cause": c} if c else {})})
             check_type(scope, mods, t, dims, g[9], p2, viol, feats)
     elif d[0] == "enum":
@@ -408,9 +391,6 @@ def features(spec):
                     chk_ty(mods, t)
                     if "optional" in anns and is_constructed(mods, t):
                         f.add("optional-constructed-member-needs-partialeq")
-            elif k == "enum":
-                if d[2] is not None:
-                    f.add("bit-bound-attribute-spelling")
             elif k == "union":
                 if d[2]:
                     f.add("union-annotation-rejected")
@@ -420,9 +400,6 @@ def features(spec):
                 chk_ty(mods, d[1])
                 if any(dims for _, dims in d[2]):
                     f.add("typedef-array-panics")
-            elif k == "const":
-                if d[2] == ("base", "boolean"):
-                    f.add("boolean-constant-not-rust")
     go(spec, [])
     # a member whose (alias-expanded) type nests sequences / arrays of sequences has no DataStorageMapping impl
     def expands_to_seq(mods, t):
@@ -449,9 +426,9 @@ def features(spec):
     return f
 
 
-OUTCOME_CAUSE_ORDER = ["template-close-parsed-as-shift", "union-annotation-rejected", "typedef-array-panics", "bit-bound-attribute-spelling",
+OUTCOME_CAUSE_ORDER = ["template-close-parsed-as-shift", "union-annotation-rejected", "typedef-array-panics",
                        "optional-constructed-member-needs-partialeq", "nested-sequence-not-supported",
-                       "scoped-name-not-resolvable-in-rust", "boolean-constant-not-rust"]
+                       "scoped-name-not-resolvable-in-rust"]
 
 
 # ------------------------------------------------------------------------------------------ random specs
@@ -500,36 +477,38 @@ class IdlGen:
         name = self.name("S")
         anns = []
         c = r.below(10)
-        if c < 5:
+        if c < 4:
             anns.append(r.choice(["final", "appendable", "mutable"]))
         elif c < 6:
-            anns.append(("o", r.choice(["nested", "topic"])))
+            anns.append(("o", "extensibility:" + r.choice(["FINAL", "APPENDABLE", "MUTABLE"])))
+        if r.chance(1, 6):
+            anns.insert(r.below(len(anns) + 1), ("o", r.choice(["nested", "topic"])))
         members = []
-        used = set()
         nm = r.choice([1, 1, 2, 3, 4, 5])
-        explicit = "mutable" in anns and r.chance(1, 2)
+        explicit = (("mutable" in anns) or (("o", "extensibility:MUTABLE") in anns)) and r.chance(1, 2)
         nid = 0
         for _ in range(nm):
             t = self.ty(avail, mods)
             ma = []
-            if r.chance(1, 5):
+            if r.chance(1, 4):
                 ma.append("key")
-            elif r.chance(1, 6) and not (t[0] == "name"):
+            elif r.chance(1, 6) and not (t[0] == "name") and not (t[0] == "seq" and t[1][0] == "name"):
                 ma.append("optional")
-            elif explicit and r.chance(2, 3):
-                nid += r.choice([0, 1, 5, 100])
-                ma.append(("id", nid))
-                nid += 1
+            has_id = explicit and r.chance(2, 3)
+            if has_id:
+                nid += r.choice([0, 1, 5, 100])                   # nid = the id an un-annotated member would get next
+                ma.insert(r.below(len(ma) + 1), ("id", nid))      # before or after @key / @optional
             if r.chance(1, 12):
-                ma.append(("o", r.choice(["external", "must_understand"])))
+                ma.insert(r.below(len(ma) + 1), ("o", r.choice(["external", "must_understand"])))
             decls = []
-            two = r.chance(1, 6) and (not ma or (len(ma) == 1 and ma[0] in ("key", "optional") and r.chance(1, 2)))
+            two = r.chance(1, 5) and not any(not isinstance(a, str) and a[0] == "id" for a in ma)   # @id on two declarators is an IDL error
             for _ in range(2 if two else 1):
                 n = self.name(r.choice(["a", "b", "val", "x", "count", "data"]))
                 dims = [] if r.chance(3, 4) else [r.choice([1, 2, 3, 5])]
                 if dims and t[0] == "seq":
                     dims = []
                 decls.append((n, dims))
+            nid += len(decls)                                     # ids stay distinct (a repeated id is a compile error since D-gen-1)
             members.append((ma, t, decls))
         return ("struct", name, anns, members)
 
@@ -546,7 +525,10 @@ class IdlGen:
                 v = cur
             es.append((self.name("E_"), v))
             cur += 1
-        return ("enum", self.name("En"), None, es)
+        bits = None
+        if r.chance(1, 3):
+            bits = next((b for b in r.shuffle([8, 16, 32]) if cur - 1 <= {8: 127, 16: 32767, 32: 2**31 - 1}[b]), None)
+        return ("enum", self.name("En"), bits, es)
 
     def union(self, avail, mods):
         r = self.r
@@ -576,7 +558,8 @@ class IdlGen:
 
     def const(self):
         r = self.r
-        c = r.below(4)
+        c = r.below(5)
+        if c == 4: return ("const", self.name("K"), tb("boolean"), r.choice(["TRUE", "FALSE"]))
         if c == 0: return ("const", self.name("K"), tb("long"), str(r.choice([0, 1, 42, 2147483647])))
         if c == 1: return ("const", self.name("K"), tb("double"), r.choice(["1.5", "0.25", "100.0"]))
         if c == 2: return ("const", self.name("K"), tstr(), '"hello"')
@@ -627,12 +610,12 @@ def corpus():
     out.append([("struct", "Matrix", [], [M([], tb("long"), ("m", [2, 3])), M([], tb("octet"), ("v", [4]))])])
     # wide types
     out.append([("struct", "Wide", [], [M([], tb("wchar"), "c"), M([], twstr(), "w")])])
-    # only the first #[dust_dds] attribute is read: @id lost after @key, @key lost after @id, type name lost after @mutable inside a module
+    # D-gen-14 (repaired): one #[dust_dds] attribute per annotation: @key @id, @id @key, @mutable inside a module
     out.append([("module", "Mo", [("struct", "Attrs", ["mutable"], [M(["key", ("id", 5)], tb("long"), "a"), M([("id", 9), "key"], tb("long"), "b"),
                                                                        M([], tb("short"), "c")])])])
-    # annotations reach only the first declarator
+    # D-gen-15 (repaired): annotations on a member with several declarators
     out.append([("struct", "Decls", [], [M(["key"], tb("long"), "k1", "k2"), M(["optional"], tb("short"), "o1", "o2")])])
-    # @extensibility(MUTABLE) ignored
+    # D-gen-16 (repaired): the long spelling @extensibility(MUTABLE)
     out.append([("struct", "ExtSpelled", [("o", "extensibility:MUTABLE")], [M([], tb("long"), "a")])])
     # @id in a final struct (C40 D-gen-2)
     out.append([("struct", "IdFinal", ["final"], [M([("id", 7)], tb("long"), "a"), M([], tb("long"), "b")])])
